@@ -7,6 +7,7 @@ package dicescript
 import (
 	"bytes"
 	"encoding/json"
+	"errors"
 	"sync"
 	"sync/atomic"
 	"unsafe"
@@ -476,6 +477,12 @@ func (m *ValueMap) UnmarshalJSON(input []byte) error {
 	var dict map[string]*VMValue
 	if err := json.Unmarshal(input, &dict); err != nil {
 		return err
+	}
+
+	for _, v := range dict {
+		if v == nil {
+			return errors.New("值错误: 反序列化时字典的值不能为null")
+		}
 	}
 
 	m.Clear()
